@@ -696,7 +696,7 @@ fn judge_selftest(run: &Run) -> bool {
 
 pub fn main() {
     let mut run = Run::from_args(
-        "bounded-exhaustive",
+        "exploration",
         "create_multipart_mixed_stream driven by vsched (gate per response, gate for end-of-input, gate per timer delay = virtual time): \
          Dfs over ALL interleavings of n<=4 responses, <=4 timer firings and end-of-input with an eagerly polling consumer (exhaustive at \
          that bound iff the schedule count equals the closed form sum_t C(n+t,t)); larger bounds in the thorough tier; Dfs with a gated \
